@@ -499,4 +499,26 @@ theorem front_cls_correct_lrmi (e : Entry) (ch : List Entry) (hch : ch ∈ lrmiC
     exact ⟨bytes, k0, k1, hkinds, hb, hf⟩
   · simp at hok
 
+/-! ### class X86Op (no explicit operands) -/
+
+def entryOkLop (e : Entry) : Bool :=
+  let r := e.rule
+  let pp := ((e.mainOp >>> 21) &&& 3#32).toNat
+  e.enc == 0x01 && (r.modes &&& 2 != 0 && (r.space == 0 && (r.pp &&& 8 == 0 && (((r.pp &&& 1 != 0 || r.osz == 16) == (pp == 1)) && (((r.pp &&& 2 != 0) == (pp == 2)) &&
+  (((r.pp &&& 4 != 0) == (pp == 3)) && (!r.ri && (!r.a67 && (r.modKind == 0 && (r.immBytes == 0 && (r.relBytes == 0 && (!r.moff &&
+  (r.ops.all (·.implicit) && legAgreeOk r e.mainOp)))))))))))))
+
+theorem lop_entries_ok : lopChunks.all (fun c => c.all entryOkLop) = true := by decide +kernel
+
+/-- **front_cls_correct, class X86Op**: for every regenerated (row, form) pair without explicit operands the bytes `EmitX86Op` writes
+(mandatory prefix, REX.W, escape, opcode) satisfy the monitor. -/
+theorem front_cls_correct_lop (e : Entry) (ch : List Entry) (hch : ch ∈ lopChunks) (he : e ∈ ch) (ctx : Spec.X86.Ctx) (hm64 : ctx.mode64 = true) :
+    ∃ bytes, emitX86Op e.mainOp 0#32 0 0 = .ok bytes ∧ formOk ctx e.rule [] {} bytes = true := by
+  have hok := mem_chunks_ok lop_entries_ok e ch hch he
+  simp only [entryOkLop, Bool.and_eq_true, beq_iff_eq, bne_iff_ne, ne_eq, Bool.not_eq_true'] at hok
+  obtain ⟨-, hmodes, hs, hpp8, h66, hF3, hF2, hri, ha67, hmk, himm, hrel, hmoff, himpl, hA⟩ := hok
+  obtain ⟨A, hmask⟩ := legAgreeOk_spec _ _ hA
+  exact x86Op_formOk ctx e.rule e.mainOp hm64 (by simpa using hmodes) hmask hs hpp8 (by simpa using h66) (by simpa using hF3) (by simpa using hF2)
+    hri ha67 hmk himm hrel hmoff himpl A
+
 end AsmjitVerif.Props.C01
